@@ -257,7 +257,15 @@ def main():
         else:
             new_failures.append(f)
     for k in known:
-        if k["id"] in known_hits or k.get("always_report"):
+        still = k["id"] in known_hits
+        if not still and hasattr(mod, "check_known"):
+            try:
+                still = bool(mod.check_known(ctx, k))
+            except Exception as e:  # noqa
+                still = True
+                ctx.notes.append("check_known raised %s" % e)
+        if still:
+            known_hits.setdefault(k["id"], {"listed": True})
             print("KNOWN-FINDING: property=%s %s" % (pid, k["summary"]))
 
     exit_code = 0
